@@ -21,14 +21,26 @@ def modelled : List String := [
   "ff.Element.SetBigInt",
   "ff.Element.ToBigInt",
   "ff.Element.ToBigIntRegular",
-  "ff.Element.setBigInt"
+  "ff.Element.setBigInt",
+  "utils.NewIntFromString",
+  "babyjub.<decls>@babyjub.go",
+  "babyjub.<decls>@eddsa.go",
+  "babyjub.<decls>@helpers.go",
+  "ff.<decls>@arith.go",
+  "ff.<decls>@asm.go",
+  "ff.<decls>@asm_noadx.go",
+  "ff.<decls>@doc.go",
+  "ff.<decls>@element.go",
+  "ff.<decls>@element_ops_amd64.go",
+  "ff.<decls>@element_ops_noasm.go",
+  "utils.<decls>@utils.go"
 ]
 
 theorem source_pinned : modelled.all (same I3.Gen.fingerprints) = true := by decide +kernel
 
-theorem function_set_pinned : (["babyjub.", "ff."] : List String).all (sameKeys I3.Gen.fingerprints) = true := by
+theorem function_set_pinned : (["babyjub.", "ff.", "utils."] : List String).all (sameKeys I3.Gen.fingerprints) = true := by
   decide +kernel
 
-theorem modelled_nonempty : 13 = modelled.length := by decide
+theorem modelled_nonempty : 25 = modelled.length := by decide
 
 end I3.Props.C04
